@@ -177,6 +177,22 @@ class SimFS:
         if self.root:
             shutil.rmtree(self.root, ignore_errors=True)
 
+    # -- the file system changes while the process lives
+    def write(self, path, data):
+        """Create or replace a file (image and mirrored directory)."""
+        self.image[path] = bytes(data)
+        full = os.path.join(self.root, path)
+        os.makedirs(os.path.dirname(full), exist_ok=True)
+        with builtins.open(full, "wb") as fobj:
+            fobj.write(data)
+
+    def remove(self, path):
+        self.image.pop(path, None)
+        try:
+            os.remove(os.path.join(self.root, path))
+        except OSError:
+            pass
+
     # -- the seam
     def _key(self, path):
         if not isinstance(path, str):
